@@ -460,9 +460,12 @@ func c20RunMatch(c *c20MatchCase, ctl *metric.Ctl, st *c20Stats) {
 // ---- exception lists: which exception is matched against what
 
 type c20XlCase struct {
-	Excs   [][]int `json:"excs"` // per exception: check_source_name, its rule matches the record, matches the source name
+	G      int     `json:"g"`     // global threshold
+	Rules  bool    `json:"rules"` // an antispam rule (that never matches) is configured as well
+	Excs   [][]int `json:"excs"`  // per exception: check_source_name, its rule matches the record, matches the source name
 	Exempt bool    `json:"exempt"`
 	Mex    bool    `json:"mex"`
+	Mspam  []int   `json:"mspam"` // transcription: is the k-th record of a fresh source refused
 }
 
 func c20RunXl(c *c20XlCase, ctl *metric.Ctl, st *c20Stats) {
@@ -487,8 +490,16 @@ func c20RunXl(c *c20XlCase, ctl *metric.Ctl, st *c20Stats) {
 		}
 	}
 	exc.Prepare()
-	a := NewAntispammer(&Options{MaintenanceInterval: time.Second, Threshold: 1, UnbanIterations: 4, Exceptions: exc,
-		Logger: zap.NewNop(), MetricsController: ctl})
+	o := &Options{MaintenanceInterval: time.Second, Threshold: c.G, UnbanIterations: 4, Exceptions: exc,
+		Logger: zap.NewNop(), MetricsController: ctl}
+	if c.Rules {
+		chk, err := doif.NewFromMap(map[string]any{"op": "contains", "field": "event", "values": []any{"~never~"}})
+		if err != nil {
+			panic(err)
+		}
+		o.Rules = Rules{{Name: "c20never", Threshold: 3, DoIfChecker: chk}}
+	}
+	a := NewAntispammer(o)
 	now := time.Date(2024, 1, 2, 3, 4, 5, 0, time.UTC)
 	// several records: none of a matching source may be counted, let alone refused
 	for k := 0; k < 3; k++ {
@@ -497,10 +508,10 @@ func c20RunXl(c *c20XlCase, ctl *metric.Ctl, st *c20Stats) {
 		if c.Exempt {
 			st.determined++
 			if verdict {
-				st.add(&c20Viol{Kind: "exception_dropped", XList: c, ExcKind: "exception", Via: "list", Step: k, Harness: "antispam-xlist"})
+				st.add(&c20Viol{Kind: "exception_dropped", XList: c, ExcKind: "exception", Rules: c.Rules, Thr: c.G, Via: "list", Step: k, Harness: "antispam-xlist"})
 			}
 		}
-		if verdict == c.Mex {
+		if verdict != (c.Mspam[k] == 1) {
 			st.drift++
 			if len(st.driftSample) < 5 {
 				b, _ := json.Marshal(c)
